@@ -671,7 +671,7 @@ func (w *world) prim(c *chn, op string, st *kernel.Step) {
 	b0 := w.fdb.n
 	w.opImages, w.opFailed = w.opImages[:0], false
 
-	if (op == "set-withdrawn" || op == "create") && st != nil && st.Int("failw") > 0 && w.mode == modeViews {
+	if st != nil && st.Int("failw") > 0 && w.mode == modeViews {
 		// C11 under a write error: the failw-th write of this removal fails; the
 		// channel is then half removed ("dead": neither live nor removed)
 		w.fdb.failRel = int(st.Int("failw"))
@@ -752,7 +752,7 @@ func (w *world) prim(c *chn, op string, st *kernel.Step) {
 		case modeCrash:
 			w.checkCrashPoints(c, op, err, before, after, b0, b1)
 		case modeWriteErr:
-			w.checkAfterWriteErr(c, op, before, after)
+			w.checkAfterWriteErr(c, op, before, after, err)
 			if w.opFailed && w.res.Violation == nil && c.created && op != "create" && op != "close" {
 				// the caller repeats the call that failed. Most operations are then
 				// refused by the machine (it has moved on in memory); the idempotent
@@ -775,6 +775,12 @@ func (w *world) prim(c *chn, op string, st *kernel.Step) {
 			}
 		case modeViews:
 			// reference first: the views are compared with the state after the operation
+			if w.opFailed && err == nil && pan == nil {
+				// a store write failed, yet the operation reported success: it has
+				// completed, and the views must show its result
+				w.res.Count("probe.op-succeeded-despite-write-error", 1)
+				w.opFailed = false
+			}
 			if w.opFailed {
 				// an injected write error interrupted the operation: the channel is
 				// abandoned; every other channel must be unaffected
@@ -1071,9 +1077,14 @@ func (w *world) checkCrashPoints(c *chn, op string, err error, before, after *sn
 
 // checkAfterWriteErr is the relaxed configuration: after an operation hit by
 // an injected write error, restoring must not yield a mixture.
-func (w *world) checkAfterWriteErr(c *chn, op string, before, after *snap) {
+func (w *world) checkAfterWriteErr(c *chn, op string, before, after *snap, err error) {
 	img := dump(w.inner)
-	if w.opFailed {
+	if w.opFailed && err == nil {
+		// a store write failed and the operation nevertheless reported success:
+		// it has completed, so only its result may be restored
+		w.res.Count("probe.op-succeeded-despite-write-error", 1)
+		w.checkImage(c, op+" (which returned nil although a store write failed)", img, after, after, true, 0, 0)
+	} else if w.opFailed {
 		w.checkImage(c, op, img, before, after, false, -1, -1)
 	} else if !sameSnap(before, after) || !img.equal(w.curImage) {
 		w.checkImage(c, op, img, before, after, true, 0, 0)
